@@ -360,7 +360,7 @@ def run_verus(path, seed=None, rlimit=None, timeout=600, extra=None):
     return {"cmd": " ".join(cmd), "rc": p.returncode, "summary": summary, "diags": diags, "raw_err": raw_err, "wall_s": wall}
 
 
-def classify_diags(res, text, labels, ranges):
+def classify_diags(res, text, labels, ranges, owned=()):
     """Map Verus errors to obligations. Returns (failed {key: [msgs]}, hard_errors [msgs]).
     Only spans inside the generated file are used (a postcondition inherited from a vstd trait
     spec has its primary span in vstd; the span 'at the end of the function body' is ours)."""
@@ -392,11 +392,20 @@ def classify_diags(res, text, labels, ranges):
             if key:
                 break
         if not key and ordered:
-            ln = ordered[0]["line_start"]
-            for (a, b, name, mode) in ranges:
-                if a <= ln <= b:
-                    key = ("fn", a)
-                    break
+            # the enclosing function of the first span that lies in an extracted (owned) function
+            # wins: a postcondition inherited from a trait declaration has its primary span on the
+            # trait's `ensures` line and only a secondary span ("at the end of the function
+            # body") in the impl that failed to establish it
+            cands = []
+            for sp in ordered:
+                ln = sp["line_start"]
+                for (a, b, name, mode) in ranges:
+                    if a <= ln <= b:
+                        cands.append(a)
+                        break
+            own = [a for a in cands if a in owned]
+            if own or cands:
+                key = ("fn", (own or cands)[0])
         if not key:
             hard.append(msg + " (no span inside the generated file)")
             continue
@@ -455,7 +464,8 @@ def run_unit(unit, pid, tier, seed):
     if not labels:
         raise Undecided(f"verus unit {unit}: no labelled obligation generated")
     res = run_verus(gpath, seed=None)
-    failed, hard = classify_diags(res, text, labels, ranges)
+    owned = set(gen["fn_props"].keys())
+    failed, hard = classify_diags(res, text, labels, ranges, owned)
     if hard or res["summary"] is None:
         raise Undecided(
             f"verus unit {unit}: the generated file does not type-check / tool error (unsupported construct or lost anchor), not a verification verdict:\n  "
@@ -470,7 +480,7 @@ def run_unit(unit, pid, tier, seed):
     if tier == "thorough":
         for s in (seed * 3 + 1, seed * 3 + 2, seed * 3 + 3):
             r2 = run_verus(gpath, seed=s)
-            f2, h2 = classify_diags(r2, text, labels, ranges)
+            f2, h2 = classify_diags(r2, text, labels, ranges, owned)
             seeds_tried.append(s)
             if h2:
                 problems.append(f"seed {s}: tool error {h2[:2]}")
